@@ -70,16 +70,11 @@ Theorem C11_frame_cond_refuted :
 Proof. exact cond_inplace_refuted. Qed.
 Print Assumptions C11_frame_cond_refuted.
 
-(* Distribution.to_likelihood and Model.forward(distribution) (renaming a forward model) allocate, never write old objects *)
+(* Distribution.to_likelihood allocates, never writes old objects (Model.forward(distribution): Props/C11_Geom.v) *)
 Theorem C11_frame_to_likelihood : forall hints (h : heap) (d : loc) (data : value) (name : option string) (h1 : heap) (r : loc),
   to_likelihood hints h d data name = (h1, r) -> ext h h1 /\ length h <= r.
 Proof. intros hints h d data name h1 r H. eapply to_likelihood_spec; [apply ext_refl | exact H]. Qed.
 Print Assumptions C11_frame_to_likelihood.
-
-Theorem C11_frame_model_apply : forall (h : heap) (m d : loc) (h1 : heap) (r : loc),
-  model_apply h m d = Some (h1, r) -> ext h h1 /\ length h <= r.
-Proof. exact model_apply_frame. Qed.
-Print Assumptions C11_frame_model_apply.
 
 (* Lognormal: the `_normal` getter writes only into the scratch Gaussian it re-synchronises *)
 Theorem C11_frame_lognormal_sync : forall (h : heap) (self : loc) (o : obj) (g : loc) (og : obj),
